@@ -200,3 +200,28 @@ PROPS["C09"] = dict(
     trusted_base=COMMON_TRUST + ["engine/symex/reflectmodel.go", "engine/symex/cryptomodel.go"],
 )
 PROPS["C10"] = dict(PROPS["C09"], explanation=REFLECT_NOTE + "The caller's event and payload are compared leaf by leaf with a snapshot taken before Process; the forwarded event must be a distinct object graph of the same dynamic type and shape (lengths, keys, non-string values); all-none overrides and nil/zero payloads forward the same event.")
+
+_TECH = {
+ "C01": "symbolic execution of go/ssa (SMT, z3) + event-order SMT encoding of all schedules over thread automata extracted from the SSA",
+ "C02": "symbolic execution of go/ssa (SMT, z3), inductive step over every mutator + event-order SMT encoding of all schedules",
+ "C03": "event-order SMT encoding (executed/clock variables per visible action) of all schedules, cancel instants and node delays over thread automata extracted from go/ssa; lock-granular interleaving with symbolic context switches",
+ "C04": "lockset analysis on symbolically executed go/ssa with solver-decided path feasibility + bounded interleaving exploration with symbolic context-switch choices and a sequential-order oracle",
+ "C05": "inductive step: symbolic execution of go/ssa from an arbitrary invariant-satisfying state, specification predicate written independently, SMT (z3)",
+ "C06": "inductive invariant (exact reference counting) checked by symbolic execution of every mutator, SMT (z3)",
+ "C07": "inductive step by symbolic execution of go/ssa + bounded interleaving exploration with symbolic context switches",
+ "C08": "inductive step by symbolic execution of go/ssa over a ghost file system (contracts for os/filepath), SMT (z3)",
+ "C09": "symbolic execution of go/ssa with reflect/copystructure/pointerstructure interpreted over the executor's value model and uninterpreted cryptography, independent specification, SMT (z3)",
+ "C10": "symbolic execution of go/ssa with reflect-lite; snapshot comparison of the input object graph, SMT (z3)",
+ "C11": "inductive step by symbolic execution of go/ssa (incl. container/list) + bounded interleaving exploration of two senders",
+ "C12": "symbolic execution with a lock contract (re-acquisition / recursive read lock / all-blocked states) + bounded interleaving exploration with writer-preferring RWMutex",
+ "C13": "symbolic execution of go/ssa with symbolic writer outcomes, symbolic select-arm choice, ghost file system with write faults; lockset",
+ "C14": "symbolic execution of go/ssa with json encoding as an uninterpreted deterministic function, SMT (z3)",
+ "C15": "inductive step by symbolic execution of go/ssa over a ghost file system with symbolic clock and counters, SMT (z3)",
+ "C16": "symbolic execution of go/ssa with uninterpreted cryptographic primitives + bounded interleaving exploration (rotation vs process)",
+ "C17": "inductive step by symbolic execution of go/ssa (incl. container/list), invariant preservation, SMT (z3)",
+ "C18": "symbolic execution of go/ssa with uninterpreted json/base64/signer, SMT (z3)",
+ "C19": "lockset analysis on symbolically executed go/ssa (solver-decided feasibility), races replayed under go test -race",
+ "C20": "symbolic execution of go/ssa from an arbitrary registry with symbolic node outcomes, SMT (z3)",
+}
+for _p, _t in _TECH.items():
+    PROPS[_p]["technique"] = _t
